@@ -26,6 +26,8 @@ def run(ctx):
             C.choose(rng, p, C.ROW_KINDS)
         n = rng.randint(8, 14) * p["window_size"]
         xs = D.bursty_stream(rng, n, rng.randint(1, 3), p["window_size"])
+        if i % 8 == 7:         # a window no larger than count_ubound: the reference tree is a single leaf, divergence and critical value are both 0
+            p["count_ubound"] = 25
         if i % 8 in (2, 6):    # the stream opens with a few all-zero samples (an idle sensor): they are samples like any other
             dd = len(xs[0])
             xs = [[0] * dd for _ in range(rng.randint(1, 4))] + xs
